@@ -88,8 +88,10 @@ INFO = {
 }
 
 # round 2 (s3..s5): descriptions derived from each patch and its demo
-for _k, _v in json.loads((ROOT / "tools" / "seedinfo_round2.json").read_text()).items():
-    INFO[_k] = (_v["what"], _v["needs"])
+for _f in ("seedinfo_round2.json", "seedinfo_round3.json"):
+    if (ROOT / "tools" / _f).exists():
+        for _k, _v in json.loads((ROOT / "tools" / _f).read_text()).items():
+            INFO[_k] = (_v["what"], _v["needs"])
 
 
 def main():
